@@ -134,6 +134,15 @@ template <class H> static void hash_suite(const char *cls, int a)
     { H h; h.update(text); h.finalize(got); if (memcmp(got, exp, 32)) hx_fail(kb, "update(const char*) differs"); h.update((const char *)0); const H &ch = h; (void)ch.state(); (void)h.state(); }
 #if !defined(ASCON_NO_STL)
     { H h; h.update(std::string(text)); h.finalize(got); if (memcmp(got, exp, 32)) hx_fail(kb, "update(std::string) differs"); }
+    /* a std::string is a byte container: embedded NUL and high bytes are data, in one or several calls */
+    for (size_t l = 1; l <= 40; l += 3) {
+        unsigned char raw[64]; for (size_t i = 0; i < l; i++) raw[i] = (unsigned char)((i % 3 == 0) ? 0 : (0x80 + i)); raw[l - 1] = 0;
+        if (a) ascon_hasha(exp, raw, l); else ascon_hash(exp, raw, l);
+        std::string s1(reinterpret_cast<const char *>(raw), l / 2), s2(reinterpret_cast<const char *>(raw) + l / 2, l - l / 2);
+        { H h; h.update(std::string(reinterpret_cast<const char *>(raw), l)); h.finalize(got); if (memcmp(got, exp, 32)) hx_fail(kb, "update(std::string) with embedded NUL bytes differs from the C function (len %zu)", l); }
+        { H h; h.update(s1); h.update(s2); h.finalize(got); if (memcmp(got, exp, 32)) hx_fail(kb, "update(std::string) in two calls with embedded NUL bytes differs (len %zu)", l); }
+        hx_stat("evaluations", 2);
+    }
 #endif
     hx_stat("nontrivial", 1);
 }
@@ -170,6 +179,15 @@ template <class X> static void xof_suite(const char *cls, int a, size_t declared
       { X x; x.absorb(text); x.absorb((const char *)0); x.pad(); x.absorb(MSG, 3); x.squeeze(got, 40); if (memcmp(got, exp, 40)) hx_fail(kb, "absorb(const char*) / pad() differ from the C functions"); const X &cx = x; (void)cx.state(); (void)x.state(); }
 #if !defined(ASCON_NO_STL)
       { X x; x.absorb(std::string(text)); x.pad(); x.absorb(MSG, 3); x.squeeze(got, 40); if (memcmp(got, exp, 40)) hx_fail(kb, "absorb(std::string) differs from the C functions"); }
+      for (size_t l = 1; l <= 40; l += 3) {
+          unsigned char raw[64]; for (size_t i = 0; i < l; i++) raw[i] = (unsigned char)((i % 3 == 0) ? 0 : (0x80 + i)); raw[l - 1] = 0;
+          if (a) { ascon_xofa_init_fixed(&s.xa, declared); ascon_xofa_absorb(&s.xa, raw, l); ascon_xofa_squeeze(&s.xa, exp, 40); ascon_xofa_free(&s.xa); }
+          else { ascon_xof_init_fixed(&s.x, declared); ascon_xof_absorb(&s.x, raw, l); ascon_xof_squeeze(&s.x, exp, 40); ascon_xof_free(&s.x); }
+          X x; x.absorb(std::string(reinterpret_cast<const char *>(raw), l / 2)); x.absorb(std::string(reinterpret_cast<const char *>(raw) + l / 2, l - l / 2)); x.squeeze(got, 40);
+          if (memcmp(got, exp, 40)) hx_fail(kb, "absorb(std::string) with embedded NUL bytes differs from the C functions (len %zu)", l);
+          ascon::byte_array ba = mk_ba(raw, l); X y; y.absorb(ba); y.squeeze(got, 40); if (memcmp(got, exp, 40)) hx_fail(kb, "absorb(byte_array) with NUL bytes differs (len %zu)", l);
+          hx_stat("evaluations", 2);
+      }
 #endif
     }
     hx_stat("nontrivial", 1);
